@@ -97,7 +97,22 @@ func ParseDeviceCodeClientSecret(wwwAuthenticate string) string {
 // WWW-Authenticate header value. Returns an empty string if not found.
 func parseQuotedParam(header, param string) string {
 	key := param + `="`
-	idx := strings.Index(header, key)
+	// Match whole parameter names only: "client_id" is a suffix of
+	// "device_code_client_id", so a bare substring search would read the
+	// device-code value when client_id itself is absent.
+	idx := -1
+	for from := 0; from < len(header); {
+		i := strings.Index(header[from:], key)
+		if i == -1 {
+			break
+		}
+		i += from
+		if i == 0 || header[i-1] == ' ' || header[i-1] == ',' || header[i-1] == '\t' {
+			idx = i
+			break
+		}
+		from = i + 1
+	}
 	if idx == -1 {
 		return ""
 	}
